@@ -50,6 +50,12 @@ void quad_case(size_t n, std::pair<size_t, size_t> wa) {
     if constexpr (d == 1) ana = BilinearForm{w[1] * X<1>{} + w[0]}(m1, m2);
     if constexpr (d == 2) ana = BilinearForm{w[2] * X<2>{} + w[1] * X<1>{} + w[0]}(m1, m2);
     E.prove(key + "equals-analytic-bilinear-form", sym::eq(num, ana));
+    // the weight as the FIRST operator of the form (m1 f | m2) is the same integral
+    Real ana1(0);
+    if constexpr (d == 0) ana1 = BilinearForm{w[0] * IdentityOperator{}, IdentityOperator{}}(m1, m2);
+    if constexpr (d == 1) ana1 = BilinearForm{w[1] * X<1>{} + w[0], IdentityOperator{}}(m1, m2);
+    if constexpr (d == 2) ana1 = BilinearForm{w[2] * X<2>{} + w[1] * X<1>{} + w[0], IdentityOperator{}}(m1, m2);
+    E.prove(key + "equals-analytic-bilinear-form-weight-first", sym::eq(num, ana1));
     if (!ctl && lo + 1 < hi) {
       ctl = true;
       E.control("perturbed-integral", sym::eq(num, ref + Real(1)));
